@@ -3,6 +3,7 @@ import Jwt.Generated.JsonCalls
 import Jwt.Props.C11
 import Jwt.Props.C15
 import Jwt.Lemmas.PipelineBuilder
+import Jwt.Lemmas.PipelineConfig
 /-!
 # C10 — generated tokens are well-formed and say exactly what the builder was told
 -/
@@ -245,5 +246,12 @@ theorem C10_head_setup_is_source (headers : Json) (alg : Alg) (x : Bool) :
 -- in the generated `jwt_encode`, an unsigned token never reaches `jwt_sign`; a signed one depends on its outcome
 example : (Jwt.Generated.Pipeline.encode false false false false false false true true 7 false false).1 = 0 := by decide
 example : (Jwt.Generated.Pipeline.encode false false false false false false false true 7 false false) = (7, true) := by decide
+
+/-- `jwt_builder_time_offset` as generated from the source stores the offset as passed (any size) and switches the claim on
+exactly when it is positive -/
+theorem C10_offset_is_source (b : Builder) (c : ClaimId) (secs : Int) :
+    let r := Jwt.Generated.Pipeline.timeSpan false (c = .exp) (c = .nbf) (secs ≤ Jwt.Generated.builderDisable)
+    (b.timeOffset c secs).2 = r.1 ∧ (r.2.2.1 = true → (b.timeOffset c secs).1.cfg.expOff = secs) ∧ (r.2.2.2.1 = true → (b.timeOffset c secs).1.cfg.nbfOff = secs) :=
+  ⟨(builder_timeOffset_generated b c secs).1, fun h => ((builder_timeOffset_generated b c secs).2.1 h).1, fun h => ((builder_timeOffset_generated b c secs).2.2 h).1⟩
 
 end Jwt.Props.C10
